@@ -25,7 +25,7 @@ def s(xs):
 
 def cfg(name, kinds, faults, script="none", conns=(0, 1), versions=(20,), maxcookie=3, budget=3, caps="CapsOne",
         v0=20, v1=20, cserials=(0,), events=(0,), wrong=(), inq=1, objuuids=(101, 102), initserial=0, wrap=False,
-        replay=None, senders=None, pool=("live", "dead", "never")):
+        replay=None, senders=None, pool=("live", "dead", "never"), payloads=(1,)):
     """replay = fault budget: the configuration is for MC_Replay.tla (history variable, behaviours printed)."""
     text = f"""SPECIFICATION {"Spec" if replay is None else "RSpec"}
 CONSTANTS
@@ -37,7 +37,7 @@ CONSTANTS
   Events = {s(events)}
   Fns = {{0}}
   CSerials = {s(cserials)}
-  Payloads = {{1}}
+  Payloads = {s(payloads)}
   TypeIds = {{301}}
   Caps <- {caps}
   MaxCookie = {maxcookie}
@@ -77,13 +77,13 @@ cfg("MC_SerialWrap", ["CallFunction", "CallFunctionReply"], [], script="svc", co
     initserial=3, wrap=True)
 
 # thorough configurations (target: <= ~20 min at 16 workers each)
-cfg("MC_Registry_thorough", REG, ALLF, conns=(0, 1, 2), versions=(14, 20), maxcookie=4, budget=4)
+cfg("MC_Registry_thorough", REG, ["ends", "dropped", "sdb", "sdi"], conns=(0, 1, 2), versions=(20,), maxcookie=4, budget=4)
 cfg("MC_Calls_thorough", CALLS, ["ends", "dropped"], script="svc", conns=(0, 1, 2), cserials=(0, 1), budget=4)
 cfg("MC_Events_thorough", EVENTS, ["ends", "dropped"], script="svc", conns=(0, 1, 2), events=(0, 1), budget=4)
 cfg("MC_Channels_thorough", CHANS, ["ends", "dropped"], script="chan", maxcookie=2, budget=4, caps="CapsMany")
 cfg("MC_Listeners_thorough", LSTS, ["ends", "dropped"], script="lst", budget=4)
 cfg("MC_Lifecycle_thorough", sorted(set(REG[:5] + ["CallFunction", "SubscribeEvent", "SubscribeAllEvents", "CreateChannel", "ClaimChannelEnd", "CreateBusListener", "StartBusListener"])),
-    ALLF, script="svc", budget=3, maxcookie=4, conns=(0, 1, 2))
+    ALLF, script="svc", budget=3, maxcookie=4, conns=(0, 1))
 cfg("MC_Abuse_thorough", ALL, ["dropped"], script="svc", budget=3, maxcookie=4, wrong=WRONG, caps="CapsOne")
 
 
@@ -99,7 +99,9 @@ for (nm, kinds, faults, kw) in [
         ("Listeners", LSTS, ["ends", "dropped"], dict(script="lst")),
         ("Lifecycle", LIFE, ALLF, dict(script="svc", maxcookie=4)),
         ("Abuse", ALL, ["dropped"], dict(script="svc", maxcookie=4, wrong=WRONG)),
-        ("Versions", GATED, [], dict(script="svc", v0=14, v1=20, versions=(14, 17, 20))),
+        # payload 9 stands for an ill-formed value (replay-broker sends real garbage): an old recipient's connection
+        # task cannot convert it and must end by telling the broker
+        ("Versions", GATED, [], dict(script="svc", v0=14, v1=20, versions=(14, 17, 20), payloads=(1, 9))),
 ]:
     cfg("R_" + nm, kinds, faults, budget=2, inq=2, replay=1, **kw)
     kw3 = dict(kw)
